@@ -7,6 +7,7 @@ CHECKS = {
  "C01": ("round-trip monitor: decode(encode(v)) ok, re-encode byte-identical, library PartialEq, hex path == bytes path, over typed generators (all 2^18 body presence masks, width lattice, sized random values of ~125 types)", "4/C01"),
  "C03": ("independent CBOR reader + schema-directed Conway CDDL validator + encoding-discipline checker (vkit, shares no code with the library or cbor_event) run over the bytes the library emits for typed values and builder transactions", "4/C03"),
  "C14": ("exact big-integer / map-model reference for every arithmetic and conversion operation of BigNum, Int, BigInt, Value, MultiAsset, Mint, MintBuilder; release build and overflow-checking build", "4/C14"),
+ "C20": ("third, independent deposit/refund table (written from the ledger rules, evaluated on the emitted body bytes re-read by the independent CBOR reader) compared with the stand-alone helpers and with TransactionBuilder::get_deposit/get_implicit_input; all 19 certificate kinds alone and in ordered pairs exhaustively, random sequences, totals steered to the 2^64 edge", "4/C20"),
  "C15": ("exact-rational reference (tier-by-tier recursion for the reference-script fee, a different algorithm from the library's closed form) compared with the fee functions on lattice/exhaustive-edge/random arguments", "4/C15"),
 }
 NOT_APPLICABLE = {}
